@@ -584,8 +584,8 @@ def fold_dev(f, value):
         c = const_of(e)
         if c is not None:
             return c
-        if e.get('k') == 'DeclRefExpr' and e.get('parm') and short(e.get('n', '')) == 'dev':
-            return value
+        if e.get('k') == 'DeclRefExpr' and e.get('parm') and not (e.get('t') or {}).get('p') and (e.get('t') or {}).get('w') == 32:
+            return value        # the device byte: the only 32-bit scalar parameter of the manufacturer handlers
         if e.get('k') == 'BinaryOperator' and e.get('op') in ('&', '|', '>>', '<<'):
             a, b = ev(e['l']), ev(e['r'])
             if a is None or b is None:
